@@ -4,8 +4,10 @@ CONSTANTS
   MaxSessions = 2
   QueriesPerReader = 2
   LockBeforeBump = TRUE
+  DropSessions = TRUE
   Emit = FALSE
 INVARIANT ReaderSeesSnap
 INVARIANT Exclusion
+INVARIANT DroppedStaysExclusive
 VIEW View
 CHECK_DEADLOCK FALSE
